@@ -113,6 +113,10 @@ pub struct Call {
 }
 
 impl Call {
+    /// The caller drops its receiving end (a `get_immutable` that has its value, an iterator that is not read to the end).
+    pub fn abandon(&mut self) {
+        self.chan = Chan::Closed;
+    }
     pub fn done(&self) -> bool {
         !self.outcomes.is_empty()
     }
